@@ -915,6 +915,26 @@ Proof.
   intros l h1 h2. unfold rt_reload, need_restart; simpl. rewrite rt_listen_eqb_refl. split; reflexivity.
 Qed.
 
+(** an undecodable entry in a synchronisation round is invisible to every other object: for every
+    name whose own entry is not undecodable, the event delivered to the watchers and the entity held
+    afterwards are exactly those of the round without the undecodable entries *)
+Lemma slookup_healthy : forall (snap : list (string * option string)) n,
+  slookup n snap <> Some None -> slookup n (reg_healthy snap) = slookup n snap.
+Proof.
+  induction snap as [|[k v] t IH]; intros n H; simpl in *; [reflexivity|].
+  destruct (String.eqb n k) eqn:E.
+  - destruct v as [v|]; simpl; [rewrite E; reflexivity | exfalso; apply H; reflexivity].
+  - destruct v as [v|]; simpl; [rewrite E|]; apply IH; exact H.
+Qed.
+
+Theorem registry_bad_entry_frame : forall ents snap n,
+  slookup n snap <> Some None ->
+  reg_event ents (reg_healthy snap) n = reg_event ents snap n /\
+  reg_after ents (reg_healthy snap) n = reg_after ents snap n.
+Proof.
+  intros ents snap n H. unfold reg_event, reg_after. rewrite (slookup_healthy snap n H). split; reflexivity.
+Qed.
+
 (** * The composite statements registered in props/C11.v *)
 
 Theorem old_generation_completes :
